@@ -13,13 +13,22 @@
      consistent msgs tr pd ps   ps is a global publication sequence of an execution with scheduler trace tr
                           in which callback c publishes msgs c, in order, between its LStart and its LEnd
      gproj g ps           the messages of group g in ps (= Event.Spec.project)
+   Section 4 composes the scheduler with the request engine (Req/, C04); vocabulary: Compose/DefsReq.v.
+     req_msgs cfg req_of  callback c handles the request [req_of c] with the C04 interpreter [handle_request cfg]
+                          and publishes its messages, each tagged (ghost) with c; an element of ps is
+                          (group, (callback, message))
+     wire ps              the messages on the connection;  from_cb c ps  those callback c published
+     started_all / ended_all tr   the callbacks of the LStart / LEnd labels of tr (any group)
+     distinct_replies req_of cs   the requests of different callbacks of cs have different reply subjects
    Group 0 is the empty worker id (Parallel resources, WithGroup("")): its callbacks do overlap. *)
 From Coq Require Import String.
+From GoRes Require Import Req.Spec.
 From GoRes Require Import Event.Spec.
 From stdpp Require Import gmap.
 From Coq Require Import NArith.
 From GoRes Require Import Sched.Spec Sched.AccessLTS Compose.Defs Compose.DefsC08 Compose.SchedSeq Compose.SchedEvent
-  Compose.SchedC08 Compose.SchedQuery Compose.Examples.
+  Compose.SchedC08 Compose.SchedQuery Compose.Examples
+  Compose.DefsReq Compose.ReqFrame Compose.SchedTag Compose.SchedReq Compose.ExamplesReq.
 
 (* ================= 1. one group at a time ================= *)
 
@@ -176,3 +185,120 @@ Example enq_order_nonvacuous : exists s,
   tr_q !! 6 = Some (LStart 0 100%N) /\ tr_q !! 12 = Some (LStart 1 101%N) /\
   tr_q !! 7 = Some (LEnd 0 100%N).
 Proof. exact enq_order_nonvacuous_pf. Qed.
+
+(* ================= 4. every request gets exactly one response (C04) ================= *)
+(* C04.exactly_one_response is about ONE request handled by one callback execution; C02 says every callback
+   accepted while started runs exactly once.  Together, for executions of any number of workers, groups
+   (group 0 included) and serve cycles.  The premise on the inputs [distinct_replies] (every request carries
+   its own inbox, as NATS requests do) is explicit; [NoDup (checked_cbs tr)] = distinct callback identities. *)
+
+(* a request publishes no response on any other inbox (the frame of C04.exactly_one_response) *)
+Theorem foreign_inbox_silent : forall cfg m R,
+  inbox_like R = true -> ms_reply m <> R ->
+  responses R (Req.Model.pubs (snd (handle_request cfg m))) = [].
+Proof. exact foreign_inbox_silent_pf. Qed.
+
+(* distinct callback identities: a callback is started at most once, and only if handed to runWith *)
+Theorem started_all_NoDup : forall tr s,
+  run init tr = Some s -> NoDup (checked_cbs tr) -> NoDup (started_all tr).
+Proof. exact started_all_NoDup_pf. Qed.
+
+(* what a callback has put on the connection is a prefix of its message list, all of it after its LEnd *)
+Theorem from_cb_prefix : forall (B : Type) (body : N -> list B) tr s pd ps c,
+  run init tr = Some s -> NoDup (checked_cbs tr) -> consistent (tagged body) tr pd ps ->
+  from_cb c ps `prefix_of` body c.
+Proof. exact @from_cb_prefix_pf. Qed.
+Theorem from_cb_ended : forall (B : Type) (body : N -> list B) tr s pd ps c,
+  run init tr = Some s -> NoDup (checked_cbs tr) -> consistent (tagged body) tr pd ps ->
+  c ∈ ended_all tr -> from_cb c ps = body c.
+Proof. exact @from_cb_ended_pf. Qed.
+
+(* (1) the execution ended quiescent, service started, no Shutdown: every accepted request with a reply
+   subject that is not one of the deliberately unanswered ones has EXACTLY ONE response (pre-responses not
+   counted) on its reply subject in the global publication sequence; its callback published it (and the whole
+   message list of the request), no other callback published a response on that subject *)
+Theorem requests_answered_once : forall cfg req_of tr s pd ps i g c rt rn me,
+  run init tr = Some s -> NoDup (checked_cbs tr) -> consistent (req_msgs cfg req_of) tr pd ps ->
+  has_close tr = false -> svc s = Started -> quiescent s ->
+  distinct_replies req_of (checked_cbs tr) -> lenq tr i = Some (g, c) ->
+  ms_reply (req_of c) <> [] -> inbox_like (ms_reply (req_of c)) = true ->
+  split_subject (ms_subj (req_of c)) = Some (rt, rn, me) -> silent cfg (req_of c) rt rn = false ->
+  List.length (responses (ms_reply (req_of c)) (wire ps)) = 1%nat /\
+  from_cb c ps = req_body cfg req_of c /\
+  List.length (responses (ms_reply (req_of c)) (from_cb c ps)) = 1%nat /\
+  forall c', c' <> c -> responses (ms_reply (req_of c)) (from_cb c' ps) = [].
+Proof. exact requests_answered_once_pf. Qed.
+
+(* (2) safety, no side condition on the final state (every prefix of an execution is an execution): at
+   most one response per accepted request, Shutdown or not, callbacks still executing or not *)
+Theorem requests_answered_at_most_once_always : forall cfg req_of tr s pd ps i g c rt rn me,
+  run init tr = Some s -> NoDup (checked_cbs tr) -> consistent (req_msgs cfg req_of) tr pd ps ->
+  distinct_replies req_of (checked_cbs tr) -> lenq tr i = Some (g, c) ->
+  ms_reply (req_of c) <> [] -> inbox_like (ms_reply (req_of c)) = true ->
+  split_subject (ms_subj (req_of c)) = Some (rt, rn, me) ->
+  (List.length (responses (ms_reply (req_of c)) (wire ps)) <= 1)%nat /\
+  from_cb c ps `prefix_of` req_body cfg req_of c /\
+  forall c', c' <> c -> responses (ms_reply (req_of c)) (from_cb c' ps) = [].
+Proof. exact requests_answered_at_most_once_always_pf. Qed.
+
+(* the deliberately unanswered requests (C04.access_unhandled_silent) stay unanswered *)
+Theorem silent_requests_unanswered : forall cfg req_of tr s pd ps i g c rt rn me,
+  run init tr = Some s -> NoDup (checked_cbs tr) -> consistent (req_msgs cfg req_of) tr pd ps ->
+  distinct_replies req_of (checked_cbs tr) -> lenq tr i = Some (g, c) ->
+  ms_reply (req_of c) <> [] -> inbox_like (ms_reply (req_of c)) = true ->
+  split_subject (ms_subj (req_of c)) = Some (rt, rn, me) -> silent cfg (req_of c) rt rn = true ->
+  responses (ms_reply (req_of c)) (wire ps) = [].
+Proof. exact silent_requests_unanswered_pf. Qed.
+
+(* (3) a panic elsewhere does not matter.  Once callback c has returned, what it published is what handling
+   its request ALONE gives (C04.panic_contained: no handler kills its worker) ... *)
+Theorem callback_alone : forall cfg req_of tr s pd ps c,
+  run init tr = Some s -> NoDup (checked_cbs tr) -> consistent (req_msgs cfg req_of) tr pd ps ->
+  c ∈ ended_all tr ->
+  from_cb c ps = Req.Model.pubs (snd (handle_request cfg (req_of c))) /\
+  forall c', fst (handle_request cfg (req_of c')) = Done.
+Proof. exact callback_alone_pf. Qed.
+(* ... so in two executions - other interleavings, other handlers and requests for the OTHER callbacks,
+   panicking ones included - in which c handles the same request the same way, c publishes the same *)
+Theorem panic_isolated : forall cfg cfg' req_of req_of' tr tr' s s' pd pd' ps ps' c,
+  run init tr = Some s -> NoDup (checked_cbs tr) -> consistent (req_msgs cfg req_of) tr pd ps ->
+  run init tr' = Some s' -> NoDup (checked_cbs tr') -> consistent (req_msgs cfg' req_of') tr' pd' ps' ->
+  c ∈ ended_all tr -> c ∈ ended_all tr' ->
+  handle_request cfg (req_of c) = handle_request cfg' (req_of' c) ->
+  from_cb c ps = from_cb c ps'.
+Proof. exact panic_isolated_pf. Qed.
+(* ... and a group g <> 0, whose callbacks migrate between workers, answers its requests as the single
+   worker of C04.sequence_unaffected handling them one after the other *)
+Theorem group_as_sequence : forall cfg req_of tr s pd ps g,
+  run init tr = Some s -> consistent (req_msgs cfg req_of) tr pd ps -> g <> 0%N -> idle s g ->
+  handle_requests cfg (map req_of (started_cbs tr g)) =
+    (Done, map (fun c => snd (handle_request cfg (req_of c))) (started_cbs tr g)) /\
+  map snd (gproj g ps) =
+    concat (map Req.Model.pubs (snd (handle_requests cfg (map req_of (started_cbs tr g))))).
+Proof. exact group_as_sequence_pf. Qed.
+
+(* (4) two workers, groups 5 and 6 and the Parallel group, publications interleaved; callbacks 100 (pre-response,
+   reply, panic), 101 (nested Value() calls, panic with an error), 400 (panics at once) and 200 (replies
+   twice) get one response each, the access request 300 none; all premises of (1) hold *)
+Example req_nonvacuous : exists s pd,
+  run init tr_req = Some s /\ consistent (req_msgs rx_cfg rx_req) tr_req pd ps_req /\
+  has_close tr_req = false /\ svc s = Started /\ quiescent s /\ NoDup (checked_cbs tr_req) /\
+  distinct_replies rx_req (checked_cbs tr_req) /\
+  map (lenq tr_req) [4; 7; 10; 12; 15]%nat =
+    [Some (5, 100); Some (6, 200); Some (5, 101); Some (0, 400); Some (0, 300)]%N /\
+  map (fun c => inbox_like (rx_reply c)) [100; 200; 101; 400; 300]%N = [true; true; true; true; true] /\
+  split_subject (ms_subj (rx_req 100)) = Some (t_call, s2b "test.call.get", s2b "late") /\
+  split_subject (ms_subj (rx_req 300)) = Some (t_access, s2b "test.call.get", []) /\
+  silent rx_cfg (rx_req 100) t_call (s2b "test.call.get") = false /\
+  silent rx_cfg (rx_req 300) t_access (s2b "test.call.get") = true /\
+  map (fun x => (fst x, fst (snd x), p_subj (snd (snd x)))) ps_req =
+    [(5, 100, s2b "_INBOX.r100"); (6, 200, s2b "_INBOX.r200"); (5, 100, s2b "_INBOX.r100");
+     (5, 101, s2b "event.test.call.get.seen"); (0, 400, s2b "_INBOX.rx");
+     (5, 101, s2b "event.test.call.get.seen"); (5, 101, s2b "_INBOX.r101")]%N /\
+  map rx_count [100; 200; 101; 400; 300]%N = [1; 1; 1; 1; 0]%nat.
+Proof. exact req_nonvacuous_pf. Qed.
+(* the counts, computed *)
+Example req_counts_computed :
+  map rx_count [100; 200; 101; 400; 300]%N = [1; 1; 1; 1; 0]%nat /\
+  map (fun c => List.length (from_cb c ps_req)) [100; 200; 101; 400; 300]%N = [2; 1; 3; 1; 0]%nat.
+Proof. vm_compute. split; reflexivity. Qed.
